@@ -150,6 +150,9 @@ VK_MAIN()
                 float hi = oracle_hi_path(rows, apc.gpo, apc.gpe, apc.tgpe, a, VK_LA, b, VK_LB, m->path);
                 float lo = oracle_lo_opt(rows, apc.gpo, apc.gpe, apc.tgpe, a, VK_LA, b, VK_LB);
                 float tol = (VK_TYPE == KALIGN_TYPE_RNA) ? 0.06f : 0.011f;
+#ifdef VK_GPO
+                tol += 2.0f * apc.gpo;   /* user penalties: the property's safe margin 2*gpo (the tight bracket is validated for the five default sets only) */
+#endif
                 VK_ASSERT(hi + tol >= lo, "C07: the returned alignment is within the safe margin of the full-matrix optimum");
 #ifdef VK_EQUAL
                 for (int i = 1; i <= VK_LA; i++) VK_ASSERT(m->path[i] == i, "C08: identical sequences are aligned on the diagonal (no gap)");
